@@ -66,11 +66,90 @@ class Defs:
                     self.whole[d["l"]].append((bi, "t", t))
                 else:
                     self.partial[d["l"]].append((bi, "t", t))
+        # `let slot = &mut a[i][j]; .. *slot = v;`: a reference to an element of a local aggregate that is only read and
+        # written through (never handed to other code) is that element — its stores are stores to the aggregate
+        self._element_refs(body, reach)
         # a `mut` parameter that is reassigned in the body has its argument as the first of several definitions
         # (a read after `i = i + 4` must not see the guard that was checked on the argument)
         for l in range(1, min(body.argc, n - 1) + 1):
             if self.whole[l]:
                 self.whole[l].insert(0, (0, -1, {"k": "use", "o": {"k": "param_init", "l": l}}))
+
+
+def _uses_whole(x, r):
+    """does the JSON fragment use local r itself (no projection) as an operand, or borrow it / through it mutably?"""
+    if isinstance(x, dict):
+        if x.get("k") in ("copy", "move") and isinstance(x.get("p"), dict) and x["p"].get("l") == r and not x["p"].get("pr"):
+            return True
+        if x.get("k") in ("ref", "rawptr") and x.get("m", True) and isinstance(x.get("p"), dict) and x["p"].get("l") == r:
+            return True
+        return any(_uses_whole(v, r) for v in x.values())
+    if isinstance(x, list):
+        return any(_uses_whole(v, r) for v in x)
+    return False
+
+
+def _element_refs(self, body, reach):
+    n = len(body.locals)
+    for r in range(body.argc + 1, n):
+        ty = body.locals[r]["ty"]
+        if not (ty.get("k") == "ref" and ty.get("m")):
+            continue
+        w = self.whole[r]
+        if len(w) != 1 or w[0][1] == "t":
+            continue
+        rv = w[0][2]
+        if not (rv.get("k") == "ref" and rv.get("m") and rv["p"]["pr"] and not any(e["k"] == "deref" for e in rv["p"]["pr"])):
+            continue
+        a = rv["p"]["l"]
+        if a <= body.argc:
+            continue
+        parts = self.partial[r]
+        if not parts or any(si == "t" or st.get("k") != "assign" or not st["p"]["pr"] or st["p"]["pr"][0]["k"] != "deref" for (bi, si, st) in parts):
+            continue
+        # the reference must not escape: no whole use of r, no mutable (re)borrow through it
+        esc = False
+        for bi in reach:
+            blk = body.blocks[bi]
+            if blk.get("cleanup"):
+                continue
+            for si, st in enumerate(blk["s"]):
+                if (bi, si) == (w[0][0], w[0][1]):
+                    continue
+                if st.get("k") == "assign" and _uses_whole(st.get("rv"), r):
+                    esc = True
+            t = blk["t"]
+            if _uses_whole({k: v for k, v in t.items() if k not in ("dest",)}, r):
+                esc = True
+        if esc:
+            continue
+        # index locals of the borrowed place must not be redefined between the borrow and the stores: require single
+        # definitions
+        idx_ok = all(len(self.whole[e["l"]]) == 1 and not self.partial[e["l"]] for e in rv["p"]["pr"] if e["k"] == "index")
+        if not idx_ok:
+            continue
+        for (bi, si, st) in parts:
+            st2 = dict(st)
+            st2["p"] = {"l": a, "pr": list(rv["p"]["pr"]) + list(st["p"]["pr"][1:])}
+            self.partial[a].append((bi, si, st2))
+        self.partial[r] = []
+        # the borrow itself is accounted for: if it was the only mutable borrow of `a`, `a` is not "mutated elsewhere"
+        others = False
+        for bi in reach:
+            blk = body.blocks[bi]
+            if blk.get("cleanup"):
+                continue
+            for si, st in enumerate(blk["s"]):
+                if (bi, si) == (w[0][0], w[0][1]) or st.get("k") != "assign":
+                    continue
+                rv2 = st["rv"]
+                if rv2.get("k") in ("ref", "rawptr") and rv2.get("m", True) and rv2["p"]["l"] == a and not any(e["k"] == "deref" for e in rv2["p"]["pr"]):
+                    others = True
+        if not others:
+            self.mut_borrowed[a] = False
+
+
+Defs._element_refs = _element_refs
 
 
 class Terms:
